@@ -7,7 +7,7 @@ import (
 	"github.com/markusressel/fan2go/internal/zzv"
 )
 
-//zzv:bound X1 = lockset obligation on the sequential analysis code of one fan (real RunInitializationSequence: PWM-map sweep 255..0 and RPM-curve measurement over all distinct values, hwmon fan that reads back what is written, constant RPM reading): with runFanInitializationInParallel = false every PWM write of the analysis happens while InitializationSequenceMutex is held and the mutex is not released between the first and the last analysis write; by the semantics of a mutex the analysis intervals of any number of fans are then disjoint under every schedule
+//zzv:bound X1 = lockset obligation on the sequential analysis code of one fan (real RunInitializationSequence: PWM-map sweep 255..0 and RPM-curve measurement over all distinct values, hwmon fan that reads back what is written, with and without an RPM sensor, constant RPM reading): with runFanInitializationInParallel = false every PWM write of the analysis happens while InitializationSequenceMutex is held and the mutex is not released between the first and the last analysis write; by the semantics of a mutex the analysis intervals of any number of fans are then disjoint under every schedule
 //zzv:bound X2 = with the option true the analysis completes without touching the mutex (analyses may overlap)
 //zzv:outside exclusion achieved by anything other than InitializationSequenceMutex (the check would then be inconclusive, not a violation); fairness and start order of the per-fan goroutines
 //zzv:stub sync.Mutex.Lock/Unlock drive a ghost 'held' flag; time.Sleep is a no-op
@@ -30,12 +30,12 @@ func (s *zzLockSpy) SetPwm(pwm int) error {
 	return s.zzSpyFan.SetPwm(pwm)
 }
 
-func zzAnalysis(parallel bool) (*zzLockSpy, error) {
+func zzAnalysis(parallel bool, hasRpm bool) (*zzLockSpy, error) {
 	configuration.CurrentConfig.RunFanInitializationInParallel = parallel
 	configuration.CurrentConfig.MaxRpmDiffForSettledFan = 1000000
 	configuration.CurrentConfig.FanResponseDelay = 0
 	configuration.CurrentConfig.RpmRollingWindowSize = 10
-	e := zzNewFan(zzKindHwmon, false, true, true, true, 100, 2, 1200)
+	e := zzNewFan(zzKindHwmon, false, true, true, hasRpm, 100, 2, 1200)
 	mem := &zzMemPersistence{rpm: map[string]map[int]float64{}, pwmMaps: map[string]map[int]int{}}
 	spy := &zzLockSpy{zzSpyFan: &zzSpyFan{Fan: e.fan}}
 	c := &DefaultFanController{persistence: mem, fan: spy, curve: &zzCurve{id: "zzcurve"}, updateRate: time.Millisecond,
@@ -45,10 +45,11 @@ func zzAnalysis(parallel bool) (*zzLockSpy, error) {
 }
 
 func ZZ_C16_X1_AnalysisHoldsTheLock() {
-	spy, err := zzAnalysis(false)
+	hasRpm := zzv.Choice("hasRpmSensor", 2) == 1
+	spy, err := zzAnalysis(false, hasRpm)
 	zzv.Assert(err == nil, "X1.analysis_completes")
 	zzv.Record("analysisWrites", len(spy.held))
-	zzv.Assert(len(spy.held) > 256, "X1.analysis_writes_observed")
+	zzv.Assert(len(spy.held) >= 256, "X1.analysis_writes_observed")
 	all := true
 	firstUnlocked := -1
 	for i, h := range spy.held {
@@ -64,7 +65,7 @@ func ZZ_C16_X1_AnalysisHoldsTheLock() {
 }
 
 func ZZ_C16_X2_ParallelOptionTakesNoLock() {
-	spy, err := zzAnalysis(true)
+	spy, err := zzAnalysis(true, zzv.Choice("hasRpmSensor", 2) == 1)
 	zzv.Assert(err == nil, "X2.analysis_completes")
 	none := true
 	for _, h := range spy.held {
